@@ -8,6 +8,9 @@ import (
 	"strings"
 
 	dtpb "github.com/google/fhir/go/proto/google/fhir/proto/r4/core/datatypes_go_proto"
+	opb "github.com/google/fhir/go/proto/google/fhir/proto/r4/core/resources/organization_go_proto"
+	ppb "github.com/google/fhir/go/proto/google/fhir/proto/r4/core/resources/patient_go_proto"
+	rppb "github.com/google/fhir/go/proto/google/fhir/proto/r4/core/resources/related_person_go_proto"
 	"github.com/verily-src/fhirpath-go/fhirpath"
 	"github.com/verily-src/fhirpath-go/fhirpath/system"
 	"github.com/verily-src/fhirpath-go/fhirpath/verifhook"
@@ -224,7 +227,9 @@ func runC18(cfg config) {
 	}
 	otherValue := func(d protoreflect.MessageDescriptor) proto.Message {
 		cands := []proto.Message{&dtpb.Coding{Code: &dtpb.Code{Value: "c"}}, &dtpb.HumanName{Family: &dtpb.String{Value: "F"}}, &dtpb.Integer{Value: 4},
-			&dtpb.String{Value: "s"}, &dtpb.Period{}, &dtpb.Boolean{Value: true}, &dtpb.Decimal{Value: "1.5"}}
+			&dtpb.String{Value: "s"}, &dtpb.Period{}, &dtpb.Boolean{Value: true}, &dtpb.Decimal{Value: "1.5"},
+			// nested messages that share their short name with a message of another resource
+			&opb.Organization_Contact{Purpose: &dtpb.CodeableConcept{Text: &dtpb.String{Value: "p"}}}, &rppb.RelatedPerson_Communication{Preferred: &dtpb.Boolean{Value: true}}, &ppb.Patient_Contact{}, &ppb.Patient_Communication{}}
 		for tries := 0; tries < 20; tries++ {
 			c := pick(r, cands)
 			if storedFormOf(d, c).class == 1 {
@@ -542,6 +547,15 @@ func runC18(cfg config) {
 					}
 				}
 				c.field, c.fieldNum, c.isList = f, int(f.Number()), f.IsList()
+				if c.hasParent { // the same give-up at a populated scalar field in front of the list's field
+					pfs := c.parent.msg.Descriptor().Fields()
+					for i := 0; i < pfs.Len() && pfs.Get(i) != f; i++ {
+						if pf := pfs.Get(i); pf.Kind() != protoreflect.MessageKind && !pf.IsList() && c.parent.msg.Has(pf) && n.msg.Has(f) {
+							c.parent, c.hasParent = nil, false
+							break
+						}
+					}
+				}
 				ln := 0
 				if f.IsList() {
 					ln = n.msg.Get(f).List().Len()
@@ -633,6 +647,9 @@ func runC18(cfg config) {
 	}
 	for i := 0; i < 4*scale; i++ {
 		doResource("Bundle", 3, 10)
+	}
+	for i := 0; i < 6*scale; i++ { // resources whose nested elements share short names with others (Contact, Communication)
+		doResource(pick(r, []string{"Patient", "Organization", "RelatedPerson"}), 3, 14)
 	}
 	if len(panics) > 30 {
 		panics = panics[:30]
